@@ -1009,6 +1009,13 @@ func checkC03(c *Ctx) {
 		return viol
 	}
 
+	// ---- (F) output of arbitrary shape (JqStreamOut); runs beside (A).  Never reports a deviation.
+	outsDone := make(chan struct{})
+	go func() {
+		defer close(outsDone)
+		c03Outs(c, handle)
+	}()
+
 	// ---- (A) exhaustive model, vectors replayed
 	maxVals, mod2, mod3, pairs := 3, 4, 700, "TRUE"
 	if c.Thorough() {
@@ -1242,6 +1249,7 @@ func checkC03(c *Ctx) {
 	})
 	c.Set("wall_ABselfD_s", time.Since(t0).Seconds())
 	<-runsDone
+	<-outsDone
 
 	// ---- (C) the compiled binary, blocking between values: stdin pipe, named FIFO as a file argument; two inputs
 	nPipe, nTwo := 4, 2
@@ -1250,6 +1258,11 @@ func checkC03(c *Ctx) {
 	}
 	c03Pipe(c, rng, nPipe)
 	c03TwoInputs(c, rng, nTwo)
+	nKinds := 4
+	if c.Thorough() {
+		nKinds = 24
+	}
+	c03StdinKinds(c, rng, nKinds)
 
 	if devCases > 0 {
 		c.Known(c03Dev, fmt.Sprintf("`for d.More()` in EvalProgram ends the run with status ok on a stray ']' or '}' between values and on a reader error that falls between two values (%d cases; witness: %s)", devCases, devWitness))
@@ -1368,12 +1381,18 @@ func c03Pipe(c *Ctx, rng *rand.Rand, n int) {
 				infra("mkfifo: %v", err)
 			}
 		}
-		verdict, why := c03PipeOne(c, texts, outs, fifo)
+		// the FIFO is either held open by the harness before the binary starts (its open returns at once), or the
+		// producer connects only after the binary has been started and sits in open(2) (blocking before the first byte)
+		readerFirst := fifo != "" && i%4 == 3
+		verdict, why := c03PipeOne(c, texts, outs, fifo, readerFirst)
 		switch verdict {
 		case "violation":
 			name, how := "pipe-incremental", "stdin is a pipe"
 			if fifo != "" {
 				name, how = "fifo-incremental", "the input is a named FIFO passed as a file argument"
+			}
+			if readerFirst {
+				name, how = "fifo-reader-first", "the input is a named FIFO passed as a file argument; its producer connects after the binary was started"
 			}
 			c.Violation(name, map[string]any{"values": texts, "program": string(c03PipeProg), "input": how, "why": why})
 		case "inconclusive":
@@ -1407,7 +1426,7 @@ func c03SingleOK(c *Ctx, text string, r Result) bool {
 }
 
 // fifo == "": the values go to the binary's stdin; else to the named FIFO, which is the binary's only file argument
-func c03PipeOne(c *Ctx, texts []string, outs [][]byte, fifo string) (verdict, why string) {
+func c03PipeOne(c *Ctx, texts []string, outs [][]byte, fifo string, readerFirst bool) (verdict, why string) {
 	var cmd *exec.Cmd
 	var stdin io.WriteCloser
 	var err error
@@ -1420,13 +1439,15 @@ func c03PipeOne(c *Ctx, texts []string, outs [][]byte, fifo string) (verdict, wh
 	} else {
 		cmd = exec.Command(c.Bin(), string(c03PipeProg), fifo)
 		cmd.Stdin = bytes.NewReader(nil)
-		// O_RDWR never blocks in open and keeps the FIFO from reporting end of input until it is closed here
-		f, ferr := os.OpenFile(fifo, os.O_RDWR, 0)
-		if ferr != nil {
-			infra("open fifo: %v", ferr)
-		}
-		stdin = f
 		defer os.Remove(fifo)
+		if !readerFirst {
+			// O_RDWR never blocks in open and keeps the FIFO from reporting end of input until it is closed here
+			f, ferr := os.OpenFile(fifo, os.O_RDWR, 0)
+			if ferr != nil {
+				infra("open fifo: %v", ferr)
+			}
+			stdin = f
+		}
 	}
 	stdout, err := cmd.StdoutPipe()
 	if err != nil {
@@ -1457,12 +1478,45 @@ func c03PipeOne(c *Ctx, texts []string, outs [][]byte, fifo string) (verdict, wh
 		}
 	}()
 	defer func() {
-		stdin.Close()
+		if stdin != nil {
+			stdin.Close()
+		}
 		cmd.Process.Kill()
 		cmd.Wait()
 	}()
 	var got []byte
 	want := 0
+	if readerFirst {
+		// the producer arrives late: the write end can be opened (without blocking) only once a reader has the FIFO open
+		time.Sleep(300 * time.Millisecond)
+		deadline := time.Now().Add(20 * time.Second)
+		for stdin == nil {
+			fd, oerr := syscall.Open(fifo, syscall.O_WRONLY|syscall.O_NONBLOCK, 0)
+			if oerr == nil {
+				syscall.SetNonblock(fd, false)
+				stdin = os.NewFile(uintptr(fd), fifo)
+				break
+			}
+			ended := false
+			select {
+			case x := <-ch:
+				if x.err != nil {
+					ended = true
+				} else {
+					got = append(got, x.b...)
+				}
+			default:
+			}
+			if ended && stderr.Len() == 0 {
+				// no reader on the FIFO and the run is over without an error: the stream the producer was about to write is lost
+				return "violation", fmt.Sprintf("the run ended (stdout %q, nothing on stderr) before the producer had connected to the FIFO: an input whose bytes had not arrived yet was taken for an empty input", got)
+			}
+			if ended || time.Now().After(deadline) {
+				return "inconclusive", "the binary did not open the FIFO: " + stderr.String()
+			}
+			time.Sleep(20 * time.Millisecond)
+		}
+	}
 	// wait until len(got) >= want or the deadline passes; false on timeout / end of output
 	await := func(d time.Duration) bool {
 		deadline := time.After(d)
